@@ -15,6 +15,7 @@ here at full strength and have an `…_old_code_fails` theorem in `Witness.lean`
 -/
 import CaddyModel.C06.GlobLemmas
 import CaddyModel.C06.SiteLemmas
+import CaddyModel.C06.ProvLemmas
 import CaddyModel.C06.Witness
 import CaddyModel.Gen.Consts
 
@@ -122,6 +123,78 @@ theorem matchHost_nonascii_is_linear_scan (thr : Nat) (m : List Bytes) (rhost : 
   unfold matchHost useFast
   simp only [h, Bool.and_false, Bool.false_and, Bool.false_eq_true, if_false]
   exact hostLoop_small _ _
+
+/-! ## MatchHost.Provision with `idna.ToASCII` as a parameter (any conversion function) -/
+
+/-- **what Provision leaves in the slice, for every list size**: Provision succeeds only if every
+    entry converts and no two converted entries agree up to letter case; then a small list is
+    exactly the converted entries in order, and a large list is a *sorted permutation of the
+    converted entries with the exact ones lower-cased* — never the unconverted spelling. -/
+theorem provision_entries_are_converted (idna : Bytes → Option Bytes) (thr : Nat) (l m : List Bytes)
+    (h : provisionHostI idna thr l = .ok m) :
+    ∃ as, convAll idna l = some as ∧ hasDup (as.map lower) = false ∧
+      (if l.length > thr then m.Perm (as.map lowerExact) ∧ Sorted m else m = as) := by
+  have hconv : ∃ as, convAll idna l = some as := by
+    unfold provisionHostI at h
+    cases hp : provPass1 idna l [] [] with
+    | ok m0 => exact provPass1_ok_conv idna l [] [] m0 hp
+    | idnaErr => rw [hp] at h; cases h
+    | dup => rw [hp] at h; cases h
+  rcases hconv with ⟨as, has⟩
+  refine ⟨as, has, ?_⟩
+  rw [provisionHostI_eq idna thr l as has] at h
+  have hlen := convAll_length idna l as has
+  unfold provisionHost at h
+  by_cases hd : hasDup (as.map lower) = true
+  · rw [if_pos hd] at h; cases h
+  · have hd' : hasDup (as.map lower) = false := by simpa using hd
+    refine ⟨hd', ?_⟩
+    rw [if_neg hd] at h
+    by_cases hl : as.length > thr
+    · rw [if_pos hl] at h
+      rw [if_pos (hlen ▸ hl)]
+      cases h
+      exact ⟨sortHosts_perm _, sortHosts_sorted _⟩
+    · rw [if_neg hl] at h
+      rw [if_neg (hlen ▸ hl)]
+      cases h; rfl
+
+/-- in a large list every exact entry of the provisioned slice is `lower (idna entry)` of a
+    configured entry (what the byte-wise binary search needs) -/
+theorem provision_large_exact_entries (idna : Bytes → Option Bytes) (thr : Nat) (l m : List Bytes)
+    (h : provisionHostI idna thr l = .ok m) (hl : l.length > thr) :
+    ∀ x, x ∈ m → fuzzy x = false → ∃ e a, e ∈ l ∧ idna e = some a ∧ x = lower a := by
+  rcases provision_entries_are_converted idna thr l m h with ⟨as, has, _, hm⟩
+  rw [if_pos hl] at hm
+  intro x hx hfx
+  rcases mem_map_lowerExact (hm.1.mem_iff.mp hx) with ⟨a, ha, ⟨hfa, hxa⟩ | ⟨_, hxa⟩⟩
+  · rw [hxa, hfa] at hfx; cases hfx
+  · rcases convAll_mem idna l as has a ha with ⟨e, he, hea⟩
+    exact ⟨e, a, he, hea, hxa⟩
+
+/-- **matching is decided on the converted entries, for every list size and threshold** -/
+theorem matchHostI_follows_rules (idna : Bytes → Option Bytes) (thr : Nat) (l as : List Bytes) (rhost : Bytes)
+    (h : convAll idna l = some as) (hnd : hasDup (as.map lower) = false) :
+    hostCaseI idna thr l rhost = .res (as.any (entryMatches (canonHost rhost))) := by
+  rw [hostCaseI_eq idna thr l as rhost h, hostCase_canon, hnd]
+  rfl
+
+/-- Provision fails exactly when a conversion fails or two converted entries agree up to case -/
+theorem provision_fails_iff (idna : Bytes → Option Bytes) (thr : Nat) (l : List Bytes) :
+    (∃ m, provisionHostI idna thr l = .ok m) ↔
+      ∃ as, convAll idna l = some as ∧ hasDup (as.map lower) = false := by
+  constructor
+  · rintro ⟨m, hm⟩
+    rcases provision_entries_are_converted idna thr l m hm with ⟨as, h1, h2, _⟩
+    exact ⟨as, h1, h2⟩
+  · rintro ⟨as, h1, h2⟩
+    rw [provisionHostI_eq idna thr l as h1]
+    unfold provisionHost
+    rw [h2]
+    simp only [Bool.false_eq_true, if_false]
+    by_cases hl : as.length > thr
+    · rw [if_pos hl]; exact ⟨_, rfl⟩
+    · rw [if_neg hl]; exact ⟨_, rfl⟩
 
 /-! ## path.Clean / cleanPath -/
 
@@ -540,5 +613,13 @@ example : plainHost [69, 120, 97, 109, 112, 108, 101, 46, 67, 79, 77] = true ∧
 example : siteCase 100 [69, 120, 97, 109, 112, 108, 101, 46, 67, 79, 77, 58, 56, 48, 56, 48, 47, 97, 112, 105, 42] .named [[119, 119, 119, 46, 101, 120, 97, 109, 112, 108, 101, 46, 99, 111, 109]] [[42, 46, 112, 104, 112]] [69, 88, 65, 77, 80, 76, 69, 46, 99, 111, 109, 58, 52, 52, 51] [47, 65, 80, 73, 47, 120, 46, 112, 104, 112] [47, 65, 80, 73, 47, 120, 46, 112, 104, 112] = .res false := by decide
 example : siteCase 100 [69, 120, 97, 109, 112, 108, 101, 46, 67, 79, 77, 58, 56, 48, 56, 48, 47, 97, 112, 105, 42] .implicit [] [[47, 97, 112, 105, 47, 118, 49, 47, 42]] [69, 88, 65, 77, 80, 76, 69, 46, 99, 111, 109, 58, 52, 52, 51] [47, 120, 47, 46, 46, 47, 47, 65, 112, 105, 47, 86, 49, 47, 117, 115, 101, 114, 115] [47, 120, 47, 46, 46, 47, 47, 65, 112, 105, 47, 86, 49, 47, 117, 115, 101, 114, 115] = .res true := by decide
 example : siteCase 100 [104, 116, 116, 112, 58, 47, 47, 58, 57, 48, 48, 48] .star [] [] [69, 88, 65, 77, 80, 76, 69, 46, 99, 111, 109, 58, 52, 52, 51] [47, 65, 80, 73, 47, 120, 46, 112, 104, 112] [47, 65, 80, 73, 47, 120, 46, 112, 104, 112] = .res true := by decide
+
+/-- a conversion table as the harness ships it: `bücher.example ↦ xn--bcher-kva.example`, identity on two ASCII names -/
+def exIdna : Bytes → Option Bytes := fun e =>
+  if e = [98, 195, 188, 99, 104, 101, 114, 46, 101, 120, 97, 109, 112, 108, 101] then some [120, 110, 45, 45, 98, 99, 104, 101, 114, 45, 107, 118, 97, 46, 101, 120, 97, 109, 112, 108, 101] else if e = [98, 46, 116, 101, 115, 116] then some [98, 46, 116, 101, 115, 116] else if e = [83, 46, 99, 111, 109] then some [83, 46, 99, 111, 109] else none
+example : provisionHostI exIdna 2 [[83, 46, 99, 111, 109], [98, 195, 188, 99, 104, 101, 114, 46, 101, 120, 97, 109, 112, 108, 101], [98, 46, 116, 101, 115, 116]] = .ok [[98, 46, 116, 101, 115, 116], [115, 46, 99, 111, 109], [120, 110, 45, 45, 98, 99, 104, 101, 114, 45, 107, 118, 97, 46, 101, 120, 97, 109, 112, 108, 101]] := by decide
+example : provisionHostI exIdna 100 [[83, 46, 99, 111, 109], [98, 195, 188, 99, 104, 101, 114, 46, 101, 120, 97, 109, 112, 108, 101], [98, 46, 116, 101, 115, 116]] = .ok [[83, 46, 99, 111, 109], [120, 110, 45, 45, 98, 99, 104, 101, 114, 45, 107, 118, 97, 46, 101, 120, 97, 109, 112, 108, 101], [98, 46, 116, 101, 115, 116]] := by decide
+example : hostCaseI exIdna 2 [[83, 46, 99, 111, 109], [98, 195, 188, 99, 104, 101, 114, 46, 101, 120, 97, 109, 112, 108, 101], [98, 46, 116, 101, 115, 116]] [88, 78, 45, 45, 66, 67, 72, 69, 82, 45, 75, 86, 65, 46, 69, 120, 97, 109, 112, 108, 101, 58, 52, 52, 51] = .res true := by decide
+example : provisionHostI exIdna 2 [[83, 46, 99, 111, 109], [98, 195, 188, 99, 104, 101, 114, 46, 101, 120, 97, 109, 112, 108, 101], [115, 46, 99, 111, 109]] = .idnaErr := by decide
 
 end CaddyModel.C06
